@@ -1,0 +1,625 @@
+//go:build verif
+
+// Contracts for package datatype, read by /verif/engine (govc). Comment-only:
+// with the tag off this file is not compiled, with it on it declares nothing.
+//
+// Spec functions (dlen, dpad, dbyte, dtype, be32, ...) are defined in
+// /verif/contracts/prelude.spec from RFC 6733, not from this code.
+
+package datatype
+
+//@ func pad4(n) (r)
+//@   property C02 C03
+//@   pure
+//@   ensures [C02] roundup: 0 <= n && n < 1<<62 ==> r >= n && r - n < 4 && r & 3 == 0
+//@   ensures [C02] rfc: r == pad4s(n)
+//@ end
+//@
+//@ # ---- the interface every AVP payload implements -------------------------
+//@ iface datatype.Type.Len(v) (r)
+//@   pure
+//@   requires valid(v)
+//@   ensures len: r == dlen(v)
+//@ end
+//@ iface datatype.Type.Padding(v) (r)
+//@   pure
+//@   requires valid(v)
+//@   ensures pad: r == dpad(v)
+//@ end
+//@ iface datatype.Type.Type(v) (r)
+//@   pure
+//@   requires valid(v)
+//@   ensures id: r == dtype(v)
+//@ end
+//@ iface datatype.Type.Serialize(v) (r)
+//@   modifies
+//@   requires valid(v)
+//@   ensures len: len(r) == dlen(v)
+//@   ensures bytes: forall i int :: 0 <= i && i < len(r) ==> r[i] == dbyte(v, i)
+//@ end
+//@ iface datatype.Type.String(v) (r)
+//@   modifies
+//@ end
+//@
+//@ # ---- what every decoder promises (C04: payload and its length are preserved)
+//@ functype datatype.DecoderFunc(f, b) (r, err)
+//@   modifies
+//@   ensures nonnil: err == nil ==> r != nil && valid(r)
+//@   ensures [C04] len_preserved: err == nil ==> dlen(r) == len(b)
+//@   ensures [C04] payload_preserved: err == nil ==> forall i int :: 0 <= i && i < len(b) ==> dbyte(r, i) == b[i]
+//@ end
+//@
+//@ func Decode(Type, b) (r, err)
+//@   property C01 C03 C04
+//@   modifies
+//@   ensures nonnil: err == nil ==> r != nil && valid(r)
+//@   ensures [C04] len_preserved: err == nil ==> dlen(r) == len(b)
+//@   ensures [C04] payload_preserved: err == nil ==> forall i int :: 0 <= i && i < len(b) ==> dbyte(r, i) == b[i]
+//@ end
+
+//@
+//@ # ---- Unsigned32 (RFC 6733 s.4.2: 32 bits, network byte order) ----
+//@ func DecodeUnsigned32(b) (r, err)
+//@   property C01 C02 C03 C04 C06
+//@   modifies
+//@   implements datatype.DecoderFunc
+//@   ensures ok: err == nil && typeis(r, Unsigned32)
+//@   ensures [C02] rfc_value: len(b) == 4 ==> uint32(r.(Unsigned32)) == be32(b, 0)
+//@ end
+//@ func (Unsigned32).Serialize(v) (r)
+//@   property C01 C02 C03
+//@   modifies
+//@   implements datatype.Type.Serialize
+//@   ensures [C02] rfc_layout: len(r) == 4 && be32(r, 0) == uint32(v) && fresh(r)
+//@ end
+//@ func (Unsigned32).Len(v) (r)
+//@   property C01 C02 C03
+//@   pure
+//@   implements datatype.Type.Len
+//@ end
+//@ func (Unsigned32).Padding(v) (r)
+//@   property C01 C02 C03
+//@   pure
+//@   implements datatype.Type.Padding
+//@ end
+//@ func (Unsigned32).Type(v) (r)
+//@   property C01 C02 C03
+//@   pure
+//@   implements datatype.Type.Type
+//@ end
+//@
+//@ # ---- Integer32 (RFC 6733 s.4.2: 32 bits, network byte order) ----
+//@ func DecodeInteger32(b) (r, err)
+//@   property C01 C02 C03 C04 C06
+//@   modifies
+//@   implements datatype.DecoderFunc
+//@   ensures ok: err == nil && typeis(r, Integer32)
+//@   ensures [C02] rfc_value: len(b) == 4 ==> uint32(r.(Integer32)) == be32(b, 0)
+//@ end
+//@ func (Integer32).Serialize(v) (r)
+//@   property C01 C02 C03
+//@   modifies
+//@   implements datatype.Type.Serialize
+//@   ensures [C02] rfc_layout: len(r) == 4 && be32(r, 0) == uint32(v) && fresh(r)
+//@ end
+//@ func (Integer32).Len(v) (r)
+//@   property C01 C02 C03
+//@   pure
+//@   implements datatype.Type.Len
+//@ end
+//@ func (Integer32).Padding(v) (r)
+//@   property C01 C02 C03
+//@   pure
+//@   implements datatype.Type.Padding
+//@ end
+//@ func (Integer32).Type(v) (r)
+//@   property C01 C02 C03
+//@   pure
+//@   implements datatype.Type.Type
+//@ end
+//@
+//@ # ---- Float32 (RFC 6733 s.4.2: 32 bits, network byte order) ----
+//@ func DecodeFloat32(b) (r, err)
+//@   property C01 C02 C03 C04 C06
+//@   modifies
+//@   implements datatype.DecoderFunc
+//@   ensures ok: err == nil && typeis(r, Float32)
+//@   ensures [C02] rfc_value: len(b) == 4 ==> f32bits(r.(Float32)) == be32(b, 0)
+//@ end
+//@ func (Float32).Serialize(v) (r)
+//@   property C01 C02 C03
+//@   modifies
+//@   implements datatype.Type.Serialize
+//@   ensures [C02] rfc_layout: len(r) == 4 && be32(r, 0) == f32bits(v) && fresh(r)
+//@ end
+//@ func (Float32).Len(v) (r)
+//@   property C01 C02 C03
+//@   pure
+//@   implements datatype.Type.Len
+//@ end
+//@ func (Float32).Padding(v) (r)
+//@   property C01 C02 C03
+//@   pure
+//@   implements datatype.Type.Padding
+//@ end
+//@ func (Float32).Type(v) (r)
+//@   property C01 C02 C03
+//@   pure
+//@   implements datatype.Type.Type
+//@ end
+//@
+//@ # ---- Unsigned64 (RFC 6733 s.4.2: 64 bits, network byte order) ----
+//@ func DecodeUnsigned64(b) (r, err)
+//@   property C01 C02 C03 C04 C06
+//@   modifies
+//@   implements datatype.DecoderFunc
+//@   ensures ok: err == nil && typeis(r, Unsigned64)
+//@   ensures [C02] rfc_value: len(b) == 8 ==> uint64(r.(Unsigned64)) == be64(b, 0)
+//@ end
+//@ func (Unsigned64).Serialize(v) (r)
+//@   property C01 C02 C03
+//@   modifies
+//@   implements datatype.Type.Serialize
+//@   ensures [C02] rfc_layout: len(r) == 8 && be64(r, 0) == uint64(v) && fresh(r)
+//@ end
+//@ func (Unsigned64).Len(v) (r)
+//@   property C01 C02 C03
+//@   pure
+//@   implements datatype.Type.Len
+//@ end
+//@ func (Unsigned64).Padding(v) (r)
+//@   property C01 C02 C03
+//@   pure
+//@   implements datatype.Type.Padding
+//@ end
+//@ func (Unsigned64).Type(v) (r)
+//@   property C01 C02 C03
+//@   pure
+//@   implements datatype.Type.Type
+//@ end
+//@
+//@ # ---- Integer64 (RFC 6733 s.4.2: 64 bits, network byte order) ----
+//@ func DecodeInteger64(b) (r, err)
+//@   property C01 C02 C03 C04 C06
+//@   modifies
+//@   implements datatype.DecoderFunc
+//@   ensures ok: err == nil && typeis(r, Integer64)
+//@   ensures [C02] rfc_value: len(b) == 8 ==> uint64(r.(Integer64)) == be64(b, 0)
+//@ end
+//@ func (Integer64).Serialize(v) (r)
+//@   property C01 C02 C03
+//@   modifies
+//@   implements datatype.Type.Serialize
+//@   ensures [C02] rfc_layout: len(r) == 8 && be64(r, 0) == uint64(v) && fresh(r)
+//@ end
+//@ func (Integer64).Len(v) (r)
+//@   property C01 C02 C03
+//@   pure
+//@   implements datatype.Type.Len
+//@ end
+//@ func (Integer64).Padding(v) (r)
+//@   property C01 C02 C03
+//@   pure
+//@   implements datatype.Type.Padding
+//@ end
+//@ func (Integer64).Type(v) (r)
+//@   property C01 C02 C03
+//@   pure
+//@   implements datatype.Type.Type
+//@ end
+//@
+//@ # ---- Float64 (RFC 6733 s.4.2: 64 bits, network byte order) ----
+//@ func DecodeFloat64(b) (r, err)
+//@   property C01 C02 C03 C04 C06
+//@   modifies
+//@   implements datatype.DecoderFunc
+//@   ensures ok: err == nil && typeis(r, Float64)
+//@   ensures [C02] rfc_value: len(b) == 8 ==> f64bits(r.(Float64)) == be64(b, 0)
+//@ end
+//@ func (Float64).Serialize(v) (r)
+//@   property C01 C02 C03
+//@   modifies
+//@   implements datatype.Type.Serialize
+//@   ensures [C02] rfc_layout: len(r) == 8 && be64(r, 0) == f64bits(v) && fresh(r)
+//@ end
+//@ func (Float64).Len(v) (r)
+//@   property C01 C02 C03
+//@   pure
+//@   implements datatype.Type.Len
+//@ end
+//@ func (Float64).Padding(v) (r)
+//@   property C01 C02 C03
+//@   pure
+//@   implements datatype.Type.Padding
+//@ end
+//@ func (Float64).Type(v) (r)
+//@   property C01 C02 C03
+//@   pure
+//@   implements datatype.Type.Type
+//@ end
+//@
+//@ # ---- Enumerated (RFC 6733 s.4.3.1: derived from Integer32) ----
+//@ func DecodeEnumerated(b) (r, err)
+//@   property C01 C02 C03 C04 C06
+//@   modifies
+//@   implements datatype.DecoderFunc
+//@   ensures ok: err == nil && typeis(r, Enumerated)
+//@   ensures [C02] rfc_value: len(b) == 4 ==> uint32(r.(Enumerated)) == be32(b, 0)
+//@ end
+//@ func (Enumerated).Serialize(v) (r)
+//@   property C01 C02 C03
+//@   modifies
+//@   implements datatype.Type.Serialize
+//@   ensures [C02] rfc_layout: len(r) == 4 && be32(r, 0) == uint32(v) && fresh(r)
+//@ end
+//@ func (Enumerated).Len(v) (r)
+//@   property C01 C02 C03
+//@   pure
+//@   implements datatype.Type.Len
+//@ end
+//@ func (Enumerated).Padding(v) (r)
+//@   property C01 C02 C03
+//@   pure
+//@   implements datatype.Type.Padding
+//@ end
+//@ func (Enumerated).Type(v) (r)
+//@   property C01 C02 C03
+//@   pure
+//@   implements datatype.Type.Type
+//@ end
+//@
+//@ # ---- Time (RFC 6733 s.4.3.1: 32-bit seconds since 1900-01-01 UTC; era rule of RFC 4330 s.3:
+//@ #      most significant bit set: 1968-2036 (era 0); clear: 2036-2104 (era 1)) ----
+//@ spec unix_of_ntp(w uint32) int64 = w >> 31 == 1 ? int64(w) - 2208988800 : int64(w) + 2085978496
+//@ func DecodeTime(b) (r, err)
+//@   property C01 C02 C03 C04 C06
+//@   modifies
+//@   implements datatype.DecoderFunc
+//@   ensures ok: err == nil
+//@   ensures [C03] dyn_type: typeis(r, Time)
+//@   ensures [C02] rfc_value: len(b) == 4 ==> unixOf(r.(Time)) == unix_of_ntp(be32(b, 0))
+//@ end
+//@ func (Time).Serialize(v) (r)
+//@   property C01 C02 C03
+//@   modifies
+//@   implements datatype.Type.Serialize
+//@   ensures [C02] rfc_layout: len(r) == 4 && be32(r, 0) == ntp32(unixOf(v)) && fresh(r)
+//@ end
+//@ func (Time).Len(v) (r)
+//@   property C01 C02 C03
+//@   pure
+//@   implements datatype.Type.Len
+//@ end
+//@ func (Time).Padding(v) (r)
+//@   property C01 C02 C03
+//@   pure
+//@   implements datatype.Type.Padding
+//@ end
+//@ func (Time).Type(v) (r)
+//@   property C01 C02 C03
+//@   pure
+//@   implements datatype.Type.Type
+//@ end
+//@
+//@ # ---- OctetString (RFC 6733 s.4.2/4.3: the octets themselves) ----
+//@ func DecodeOctetString(b) (r, err)
+//@   property C01 C02 C03 C04 C06
+//@   modifies
+//@   implements datatype.DecoderFunc
+//@   ensures ok: err == nil && typeis(r, OctetString)
+//@   ensures [C02] rfc_value: len(r.(OctetString)) == len(b) && forall i int :: 0 <= i && i < len(b) ==> r.(OctetString)[i] == b[i]
+//@ end
+//@ func (OctetString).Serialize(v) (r)
+//@   property C01 C02 C03
+//@   modifies
+//@   implements datatype.Type.Serialize
+//@   ensures [C02] rfc_layout: len(r) == len(v) && fresh(r)
+//@ end
+//@ func (OctetString).Len(v) (r)
+//@   property C01 C02 C03
+//@   pure
+//@   implements datatype.Type.Len
+//@ end
+//@ func (OctetString).Padding(v) (r)
+//@   property C01 C02 C03
+//@   pure
+//@   implements datatype.Type.Padding
+//@ end
+//@ func (OctetString).Type(v) (r)
+//@   property C01 C02 C03
+//@   pure
+//@   implements datatype.Type.Type
+//@ end
+//@
+//@ # ---- UTF8String (RFC 6733 s.4.2/4.3: the octets themselves) ----
+//@ func DecodeUTF8String(b) (r, err)
+//@   property C01 C02 C03 C04 C06
+//@   modifies
+//@   implements datatype.DecoderFunc
+//@   ensures ok: err == nil && typeis(r, UTF8String)
+//@   ensures [C02] rfc_value: len(r.(UTF8String)) == len(b) && forall i int :: 0 <= i && i < len(b) ==> r.(UTF8String)[i] == b[i]
+//@ end
+//@ func (UTF8String).Serialize(v) (r)
+//@   property C01 C02 C03
+//@   modifies
+//@   implements datatype.Type.Serialize
+//@   ensures [C02] rfc_layout: len(r) == len(v) && fresh(r)
+//@ end
+//@ func (UTF8String).Len(v) (r)
+//@   property C01 C02 C03
+//@   pure
+//@   implements datatype.Type.Len
+//@ end
+//@ func (UTF8String).Padding(v) (r)
+//@   property C01 C02 C03
+//@   pure
+//@   implements datatype.Type.Padding
+//@ end
+//@ func (UTF8String).Type(v) (r)
+//@   property C01 C02 C03
+//@   pure
+//@   implements datatype.Type.Type
+//@ end
+//@
+//@ # ---- DiameterIdentity (RFC 6733 s.4.2/4.3: the octets themselves) ----
+//@ func DecodeDiameterIdentity(b) (r, err)
+//@   property C01 C02 C03 C04 C06
+//@   modifies
+//@   implements datatype.DecoderFunc
+//@   ensures ok: err == nil && typeis(r, DiameterIdentity)
+//@   ensures [C02] rfc_value: len(r.(DiameterIdentity)) == len(b) && forall i int :: 0 <= i && i < len(b) ==> r.(DiameterIdentity)[i] == b[i]
+//@ end
+//@ func (DiameterIdentity).Serialize(v) (r)
+//@   property C01 C02 C03
+//@   modifies
+//@   implements datatype.Type.Serialize
+//@   ensures [C02] rfc_layout: len(r) == len(v) && fresh(r)
+//@ end
+//@ func (DiameterIdentity).Len(v) (r)
+//@   property C01 C02 C03
+//@   pure
+//@   implements datatype.Type.Len
+//@ end
+//@ func (DiameterIdentity).Padding(v) (r)
+//@   property C01 C02 C03
+//@   pure
+//@   implements datatype.Type.Padding
+//@ end
+//@ func (DiameterIdentity).Type(v) (r)
+//@   property C01 C02 C03
+//@   pure
+//@   implements datatype.Type.Type
+//@ end
+//@
+//@ # ---- DiameterURI (RFC 6733 s.4.2/4.3: the octets themselves) ----
+//@ func DecodeDiameterURI(b) (r, err)
+//@   property C01 C02 C03 C04 C06
+//@   modifies
+//@   implements datatype.DecoderFunc
+//@   ensures ok: err == nil && typeis(r, DiameterURI)
+//@   ensures [C02] rfc_value: len(r.(DiameterURI)) == len(b) && forall i int :: 0 <= i && i < len(b) ==> r.(DiameterURI)[i] == b[i]
+//@ end
+//@ func (DiameterURI).Serialize(v) (r)
+//@   property C01 C02 C03
+//@   modifies
+//@   implements datatype.Type.Serialize
+//@   ensures [C02] rfc_layout: len(r) == len(v) && fresh(r)
+//@ end
+//@ func (DiameterURI).Len(v) (r)
+//@   property C01 C02 C03
+//@   pure
+//@   implements datatype.Type.Len
+//@ end
+//@ func (DiameterURI).Padding(v) (r)
+//@   property C01 C02 C03
+//@   pure
+//@   implements datatype.Type.Padding
+//@ end
+//@ func (DiameterURI).Type(v) (r)
+//@   property C01 C02 C03
+//@   pure
+//@   implements datatype.Type.Type
+//@ end
+//@
+//@ # ---- IPFilterRule (RFC 6733 s.4.2/4.3: the octets themselves) ----
+//@ func DecodeIPFilterRule(b) (r, err)
+//@   property C01 C02 C03 C04 C06
+//@   modifies
+//@   implements datatype.DecoderFunc
+//@   ensures ok: err == nil && typeis(r, IPFilterRule)
+//@   ensures [C02] rfc_value: len(r.(IPFilterRule)) == len(b) && forall i int :: 0 <= i && i < len(b) ==> r.(IPFilterRule)[i] == b[i]
+//@ end
+//@ func (IPFilterRule).Serialize(v) (r)
+//@   property C01 C02 C03
+//@   modifies
+//@   implements datatype.Type.Serialize
+//@   ensures [C02] rfc_layout: len(r) == len(v) && fresh(r)
+//@ end
+//@ func (IPFilterRule).Len(v) (r)
+//@   property C01 C02 C03
+//@   pure
+//@   implements datatype.Type.Len
+//@ end
+//@ func (IPFilterRule).Padding(v) (r)
+//@   property C01 C02 C03
+//@   pure
+//@   implements datatype.Type.Padding
+//@ end
+//@ func (IPFilterRule).Type(v) (r)
+//@   property C01 C02 C03
+//@   pure
+//@   implements datatype.Type.Type
+//@ end
+//@
+//@ # ---- QoSFilterRule (RFC 6733 s.4.2/4.3: the octets themselves) ----
+//@ func DecodeQoSFilterRule(b) (r, err)
+//@   property C01 C02 C03 C04 C06
+//@   modifies
+//@   implements datatype.DecoderFunc
+//@   ensures ok: err == nil && typeis(r, QoSFilterRule)
+//@   ensures [C02] rfc_value: len(r.(QoSFilterRule)) == len(b) && forall i int :: 0 <= i && i < len(b) ==> r.(QoSFilterRule)[i] == b[i]
+//@ end
+//@ func (QoSFilterRule).Serialize(v) (r)
+//@   property C01 C02 C03
+//@   modifies
+//@   implements datatype.Type.Serialize
+//@   ensures [C02] rfc_layout: len(r) == len(v) && fresh(r)
+//@ end
+//@ func (QoSFilterRule).Len(v) (r)
+//@   property C01 C02 C03
+//@   pure
+//@   implements datatype.Type.Len
+//@ end
+//@ func (QoSFilterRule).Padding(v) (r)
+//@   property C01 C02 C03
+//@   pure
+//@   implements datatype.Type.Padding
+//@ end
+//@ func (QoSFilterRule).Type(v) (r)
+//@   property C01 C02 C03
+//@   pure
+//@   implements datatype.Type.Type
+//@ end
+//@
+//@ # ---- Unknown: opaque octets ----
+//@ func DecodeUnknown(b) (r, err)
+//@   property C01 C02 C03 C04 C06
+//@   modifies
+//@   implements datatype.DecoderFunc
+//@   ensures ok: err == nil && typeis(r, Unknown)
+//@   ensures [C02] rfc_value: len(r.(Unknown)) == len(b) && forall i int :: 0 <= i && i < len(b) ==> r.(Unknown)[i] == b[i]
+//@ end
+//@ func (Unknown).Serialize(v) (r)
+//@   property C01 C02 C03
+//@   modifies
+//@   implements datatype.Type.Serialize
+//@ end
+//@ func (Unknown).Len(v) (r)
+//@   property C01 C02 C03
+//@   pure
+//@   implements datatype.Type.Len
+//@ end
+//@ func (Unknown).Padding(v) (r)
+//@   property C01 C02 C03
+//@   pure
+//@   implements datatype.Type.Padding
+//@ end
+//@ func (Unknown).Type(v) (r)
+//@   property C01 C02 C03
+//@   pure
+//@   implements datatype.Type.Type
+//@ end
+//@
+//@ # ---- Grouped: opaque octets ----
+//@ func DecodeGrouped(b) (r, err)
+//@   property C01 C02 C03 C04 C06
+//@   modifies
+//@   implements datatype.DecoderFunc
+//@   ensures ok: err == nil && typeis(r, Grouped)
+//@   ensures [C02] rfc_value: len(r.(Grouped)) == len(b) && forall i int :: 0 <= i && i < len(b) ==> r.(Grouped)[i] == b[i]
+//@ end
+//@ func (Grouped).Serialize(v) (r)
+//@   property C01 C02 C03
+//@   modifies
+//@   implements datatype.Type.Serialize
+//@ end
+//@ func (Grouped).Len(v) (r)
+//@   property C01 C02 C03
+//@   pure
+//@   implements datatype.Type.Len
+//@ end
+//@ func (Grouped).Padding(v) (r)
+//@   property C01 C02 C03
+//@   pure
+//@   implements datatype.Type.Padding
+//@ end
+//@ func (Grouped).Type(v) (r)
+//@   property C01 C02 C03
+//@   pure
+//@   implements datatype.Type.Type
+//@ end
+//@
+//@ # ---- IPv4 / IPv6 (RFC 6733 s.4.3.1 via Address; 4 / 16 raw octets) ----
+//@ func DecodeIPv4(b) (r, err)
+//@   property C01 C02 C03 C04 C06
+//@   modifies
+//@   implements datatype.DecoderFunc
+//@   ensures ok: err == nil && typeis(r, IPv4) && len(r.(IPv4)) == 4
+//@   ensures [C02] rfc_value: len(b) == 4 ==> be32(r.(IPv4), 0) == be32(b, 0)
+//@ end
+//@ func (IPv4).Serialize(v) (r)
+//@   property C01 C02 C03
+//@   modifies
+//@   implements datatype.Type.Serialize
+//@ end
+//@ func (IPv4).Len(v) (r)
+//@   property C01 C02 C03
+//@   pure
+//@   implements datatype.Type.Len
+//@ end
+//@ func (IPv4).Padding(v) (r)
+//@   property C01 C02 C03
+//@   pure
+//@   implements datatype.Type.Padding
+//@ end
+//@ func (IPv4).Type(v) (r)
+//@   property C01 C02 C03
+//@   pure
+//@   implements datatype.Type.Type
+//@ end
+//@ func DecodeIPv6(b) (r, err)
+//@   property C01 C02 C03 C04 C06
+//@   modifies
+//@   implements datatype.DecoderFunc
+//@   ensures ok: err == nil && typeis(r, IPv6) && len(r.(IPv6)) == 16
+//@   ensures [C02] rfc_value: len(b) == 16 ==> forall i int :: 0 <= i && i < 16 ==> r.(IPv6)[i] == b[i]
+//@ end
+//@ func (IPv6).Serialize(v) (r)
+//@   property C01 C02 C03
+//@   modifies
+//@   implements datatype.Type.Serialize
+//@ end
+//@ func (IPv6).Len(v) (r)
+//@   property C01 C02 C03
+//@   pure
+//@   implements datatype.Type.Len
+//@ end
+//@ func (IPv6).Padding(v) (r)
+//@   property C01 C02 C03
+//@   pure
+//@   implements datatype.Type.Padding
+//@ end
+//@ func (IPv6).Type(v) (r)
+//@   property C01 C02 C03
+//@   pure
+//@   implements datatype.Type.Type
+//@ end
+//@
+//@ # ---- Address (RFC 6733 s.4.3.1: 2-octet AddressType, then the address) ----
+//@ func DecodeAddress(b) (r, err)
+//@   property C01 C02 C03 C04 C06
+//@   modifies
+//@   implements datatype.DecoderFunc
+//@   ensures short: len(b) < 3 ==> err != nil
+//@   ensures ok: err == nil ==> typeis(r, Address)
+//@ end
+//@ func (Address).Serialize(v) (r)
+//@   property C01 C02 C03
+//@   modifies
+//@   implements datatype.Type.Serialize
+//@ end
+//@ func (Address).Len(v) (r)
+//@   property C01 C02 C03
+//@   pure
+//@   implements datatype.Type.Len
+//@ end
+//@ func (Address).Padding(v) (r)
+//@   property C01 C02 C03
+//@   pure
+//@   implements datatype.Type.Padding
+//@ end
+//@ func (Address).Type(v) (r)
+//@   property C01 C02 C03
+//@   pure
+//@   implements datatype.Type.Type
+//@ end
